@@ -190,6 +190,17 @@ fn check_many(input: &(u8, u16), case: &mut Case) -> Result<(), Fail> {
     Ok(())
 }
 
+/// pointer graphs (names that point into the fixed fields of earlier entries, chains, odd targets): when both
+/// the library and the reference decoder accept, the entries must agree
+fn check_graph(g: &super::c01::Graph, case: &mut Case) -> Result<(), Fail> {
+    let mut g = g.clone();
+    g.repeat_last = g.repeat_last.min(40);
+    let m = super::c01::render_graph(&g);
+    let accepted = framing_oracle(&m, case)?;
+    case.nontrivial = accepted && g.frags.len() >= 2;
+    Ok(())
+}
+
 /// reference encodings with stray / twin OPT records and malformed NSEC windows (C11's inputs)
 fn check_strays(input: &super::c11::In, case: &mut Case) -> Result<(), Fail> {
     let m = super::c11::render(input);
@@ -207,6 +218,7 @@ pub fn def() -> CheckDef {
             Box::new(ReplayOnly { name: "fuzz-bytes", check: check_raw }),
             Box::new(PropSection { name: "rdlength", rule: "RDLENGTH vs content mismatches", strategy, cases: (300_000, 3_000_000), check }),
             Box::new(EnumSection { name: "many-entries", rule: "sections holding 0..4000 entries", enumerate: enum_many, check: check_many, exhaustive: true }),
+            Box::new(PropSection { name: "graphs", rule: "pointer graphs: names pointing into earlier entries' fixed fields", strategy: super::c01::graph_strategy, cases: (150_000, 1_000_000), check: check_graph }),
             Box::new(PropSection { name: "strays", rule: "stray / twin OPT records, any opcode and rcode", strategy: super::c11::strategy_pub, cases: (100_000, 1_000_000), check: check_strays }),
             Box::new(PropSection { name: "mutated", rule: "mutated reference encodings", strategy: super::c01::mutated_strategy, cases: (300_000, 3_000_000), check: check_mutated }),
         ],
